@@ -201,6 +201,14 @@ def target_of(qualname):
     return c, repo.resolve(qualname)
 
 
+def _wants_iteration(g):
+    """a generator may take the iteration number as well (systematic enumeration of small cases before random ones)"""
+    try:
+        return g.__code__.co_argcount >= 2
+    except AttributeError:
+        return False
+
+
 def search(qualname, seed, budget_s, max_iter=200000, start=0):
     """-> dict describing the first failing input in iterations [start, max_iter), or None.  Deterministic in (seed, iteration):
     the iteration range is the bound; the time budget is only a safety net (a truncated range is reported in last_stats)."""
@@ -218,7 +226,7 @@ def search(qualname, seed, budget_s, max_iter=200000, start=0):
         rnd = random.Random('%s/%d/%d' % (qualname, seed, it))
         reset_globals()
         try:
-            args = c.gen(rnd)
+            args = c.gen(rnd, it) if _wants_iteration(c.gen) else c.gen(rnd)
         except Exception:
             continue
         if not isinstance(args, tuple):
@@ -245,7 +253,7 @@ def replay(rec):
     c, fn = target_of(qualname)
     rnd = random.Random('%s/%d/%d' % (qualname, seed, it))
     reset_globals()
-    args = c.gen(rnd)
+    args = c.gen(rnd, it) if _wants_iteration(c.gen) else c.gen(rnd)
     if not isinstance(args, tuple):
         args = (args,)
     try:
